@@ -6,19 +6,20 @@ LEGS = [{"driver": "c06", "runner": ("agree", "Extract/ExtractAgree.v", "Agree_m
 COQ_TIMEOUT = 1500
 
 TECHNIQUE = ("Coq: client and server endpoint models (abstract message alphabet, symbolic terms) run against each other over a faithful "
-             "channel and swept by vm_compute over the whole finite configuration product (190 080 configurations) against a policy "
+             "channel and swept by vm_compute over the whole finite configuration product (221 760 configurations) against a policy "
              "predicate written from the property text; proofs of the key-block layout, of mirrored read/write keys and of pHash = "
              "P_hash for all inputs; models tied to /repo by real loopback connections (gmtls<->gmtls, gmtls<->Go crypto/tls both ways) "
              "with both ends' ConnectionState, exporters, errors and 0..200 KiB payloads in random fragments; GMSSL wire captures are "
              "decoded by the extracted Coq specifications (SM3 -> HMAC -> P_hash -> key block; SM4-CBC+HMAC-SM3 and SM4-GCM records)")
 LEVEL_TEXT = ("Theorems in Coq (Props/C06.v): for every configuration of the product server mode {GMSSL, auto, TLS} x client {GM, TLS 1.0, "
-              "1.1, 1.2} x 11 client / 6 server suite lists from the generated tables x server preference x ClientAuth (5) x client "
+              "1.1, 1.2} x 11 client / 7 server suite lists from the generated tables x server preference x ClientAuth (5) x client "
               "certificate {none, trusted, forged issuer} x certificates {static, callbacks} x tickets {on, off} x ClientCAs {holds the "
               "CAs, empty pool} the client model and the "
               "server model either both complete with equal version, suite, master-secret term, exporter term, key-block term and each "
               "other's certificates, or both fail, and they complete exactly when policy_allows, and then a second and third connection "
               "from the same client session cache complete with the same parameters (resumed with the first master secret when tickets "
-              "are on); the key block is cut as "
+              "are on), and the negotiated suite is the first entry of the preferring side's list (server's under "
+              "PreferServerCipherSuites, else the client's) that the other side supports; the key block is cut as "
               "clientMAC|serverMAC|clientKey|serverKey|clientIV|serverIV with the generated lengths and installed mirrored; prf12/pHash "
               "equals P_hash (RFC 5246 s.5 / GM/T 0024) for every secret, label, seed and length, instantiated with the HMAC-SM3 "
               "specification for GMSSL; Conn.Write/writeRecordLocked/Conn.Read deliver every sequence of writes in order and unmodified "
@@ -112,6 +113,24 @@ def allowed(c):
     return True
 
 
+def _expected_suite(c):
+    """first entry of the preferring side's list that the other side lists and both can run"""
+    gm = c["kind"] == "g"
+    cl = c["cs"] if c["cs"] is not None else (GM_DEFAULT if gm else TLS_DEFAULT)
+    sl = c["ss"] if c["ss"] is not None else (GM_DEFAULT if gm else TLS_DEFAULT)
+    v = VERS[c["kind"]]
+
+    def usable(i):
+        if gm:
+            return i in GM and not GM[i]
+        return i in TLS and not TLS[i][1] and (v == 0x0303 or not TLS[i][2])
+    pref, other = (sl, cl) if c["prefer"] else (cl, sl)
+    for i in pref:
+        if i in other and usable(i):
+            return i
+    return None
+
+
 def _letters(s):
     """the per-connection letters of the 'more' field without the bracketed error texts"""
     out, depth = "", 0
@@ -137,7 +156,7 @@ def _digest(b):
     return "%d:%d:%d:%s" % (len(b), s1, s2, b[:16].hex() or "-")
 
 
-# measured while a check runs (reported through RULE, see extra())
+# measured while a check runs (reported through evidence_extra())
 DECODED = {"connections": 0, "records": 0, "bytes": 0}
 
 
@@ -176,16 +195,14 @@ def same(f, io, mo):
     return io == mo
 
 
-_RULE0 = RULE
-
-
-def extra(tier, seed, wd, sh, goenv):
-    """no further steps; publishes the decoder's measured coverage in the evidence (rule text)"""
-    global RULE
-    RULE = _RULE0 + (" | measured in this run: independently_decoded_connections=%(connections)d independently_decoded_records=%(records)d "
-                     "independently_decoded_bytes=%(bytes)d (GMSSL application-data records opened by the extracted Coq specification "
-                     "with keys derived from the key-logged master secret, plaintext equal to what the applications wrote)" % DECODED)
-    return []
+def evidence_extra(wd):
+    """measured coverage of the independent decoder, merged into the evidence by verif.py"""
+    return {"independently_decoded_connections": DECODED["connections"],
+            "independently_decoded_records": DECODED["records"],
+            "independently_decoded_bytes": DECODED["bytes"],
+            "independent_decoder": "extracted Coq specification: key block from the key-logged master secret (Agree/KeyModel.v P_hash over "
+                                   "SM3/HMACSpec.v), records opened by Rec/RecordModel.v decrypt with SM4/SM4Spec.v, SM3/HMACSpec.v, "
+                                   "Rec/GcmRef.v; a connection counts when both directions decode to what the applications wrote"}
 
 
 def predicate(f, io):
@@ -210,6 +227,9 @@ def predicate(f, io):
         return False, "negotiated version %04x is not the client's %04x" % (vers, VERS[c["kind"]])
     if (c["cs"] is not None and suite not in c["cs"]) or (c["ss"] is not None and suite not in c["ss"]):
         return False, "negotiated suite %04x is not in both configured lists" % suite
+    if c["peer"] == "gg" and suite != _expected_suite(c):
+        return False, ("negotiated suite %04x is not the first acceptable entry of the %s's list (%04x)"
+                       % (suite, "server" if c["prefer"] else "client", _expected_suite(c) or 0))
     if ekmeq != "1":
         return False, "the two ends export different keying material"
     want_pcc = "gm" if c["kind"] == "g" else "rsa"
